@@ -1,7 +1,7 @@
 (** C20 — obligations over the facts regenerated from /repo (Gen/C20Facts.v). *)
 From Coq Require Import List Bool Arith ZArith String.
 Import ListNotations.
-Require Import Nib.C20.Model Nib.C20.Spec Nib.C20.Shape Nib.C20.Check Nib.C20.Proofs Nib.C20.Property.
+Require Import Nib.C20.Model Nib.C20.Spec Nib.C20.Shape Nib.C20.Check Nib.C20.Proofs Nib.C20.ProofsDg Nib.C20.Property.
 Require Import Nib.Gen.C20Facts.
 
 (** Every persistent collection declared in the seven keepers is carried by a GenesisState field that
@@ -32,3 +32,15 @@ Theorem C20_second_export_for_current_tree : forall F env h t s, wf_app F env s 
                   export_app env s' = Some g' /\ gen_equiv h g g'.
 Proof. intros F env h t s. exact (C20_export_roundtrip current_cfg F env h t s). Qed.
 Print Assumptions C20_second_export_for_current_tree.
+
+(** x/devgas for the current tree (the rule of MsgUpdateFeeShare is regenerated from the handler source): every
+    registry reachable from a default-like genesis by any history of the registry messages exports a section that
+    genesis validation accepts and InitGenesis restores exactly. *)
+Theorem C20_devgas_histories_for_current_tree : forall F ops p, funs_dg_ok F -> f_dgp_ok F p = true ->
+  let s := snd (dg_run (c_dg_upd current_cfg) F ops ([], dg_genesis p)) in
+  init_devgas F (export_devgas s) = Some s.
+Proof.
+  assert (E : c_dg_upd current_cfg = DgUpdKeep) by (vm_compute; reflexivity).
+  rewrite E. exact C20_devgas_history_from_genesis.
+Qed.
+Print Assumptions C20_devgas_histories_for_current_tree.
